@@ -94,7 +94,7 @@ def case(draw):
         eqs.append(['dif', names[0] + ' - ' + names[-1] + ' - 1.0', 'leaf'])
     T = draw(st.integers(2, 4))
     gvals = [draw(st.integers(-2000, 2000)) / 100.0 for _ in range(T + 1)]
-    ss_T = draw(st.sampled_from([200, 50, 20, 5, 100, 10]))
+    ss_T = draw(st.sampled_from([200, 50, 20, 5, 100, 10, 2, 1, 0]))     # "all search horizons": down to none at all
     tol = draw(st.sampled_from(['1e-4', '1e-3', '1e-2', '1e-6', '1e-5']))
     if kind.startswith('drift') and float(tol) * ss_T > 0.05:
         ss_T = max(5, int(0.05 / float(tol)))
@@ -232,7 +232,7 @@ def tight_case(draw):
             parts.append(('+', draw(st.sampled_from(['3.0', '-7.5', '100.0']))))
             parts.append(('+', trend + draw(st.sampled_from(['*t', '*k']))))
         eqs.append([nm, blocks.join_signed(parts, ' ') if parts else '0.0', 'sim'])
-    ss_T = draw(st.sampled_from([50, 51, 20, 5, 200, 7]))
+    ss_T = draw(st.sampled_from([50, 51, 20, 5, 200, 7, 2, 1, 0]))
     norm = max([sum(abs(v) for v in row) / 100.0 for row in A] + [1.0])
     return {
         'eqs': eqs, 'lags': [['LAG_' + nm, nm, '(k-1)'] for nm in names], 'exo': [], 'ics': ics, 'maxtime': 2, 'tol': '1e-9',
